@@ -864,6 +864,37 @@ func c15(c *Ctx) {
 			}
 		}
 		r.Check("header:split-sites", n >= 1, cp.Pos(), fmt.Sprintf("%d ':' split sites in constructPost", n))
+		// a request's dynamic headers are its own: the handler-wide static header map is only read after
+		// construction (a value written into it by one request is carried by every later request)
+		nw := 0
+		for _, fn := range pkgFuncs(w, "pkg/statsd") {
+			if strings.HasPrefix(fn.Name(), "NewHttpForwarderHandlerV2") {
+				continue
+			}
+			eachInstr(fn, func(in ssa.Instruction) {
+				var m ssa.Value
+				switch x := in.(type) {
+				case *ssa.MapUpdate:
+					m = x.Map
+				case ssa.CallInstruction:
+					if isCall(x, "builtin delete") || isCall(x, "builtin clear") {
+						m = x.Common().Args[0]
+					} else if strings.HasPrefix(calleeName(x), "maps.Copy") {
+						m = x.Common().Args[0]
+					}
+				}
+				if m == nil {
+					return
+				}
+				if t, f, _, ok := fieldRefThroughLoad(ptrOrigin(m)); ok && t == "HttpForwarderHandlerV2" && f == "headers" {
+					nw++
+					r.Fail("headers:static-map-not-written", in.Pos(), "the handler's static header map is modified in "+FuncName(fn)+": headers set for one request leak into all later ones (and concurrent posts race on the map)")
+				}
+			})
+		}
+		if nw == 0 {
+			r.Pass("headers:static-map-not-written", cp.Pos(), "hfh.headers is written only by the constructor")
+		}
 	})
 
 	c.Rule("C15.R9", "dynamic-header selection is anchored at tag boundaries: every 'name:value' that tagsMatch selects is a whole element of the tags key split at ',' and begins with a configured header name (a name found in the middle of another tag, or inside a value, must not select the series' request)", 3, func(r *Rule) {
